@@ -184,7 +184,10 @@ Expand(part, s) ==
                            { [y EXCEPT !.cut = ct] : ct \in { q \in (s.cut * ChunkBlk + 1)..((s.cut + 1) * ChunkBlk) : q <= n - 1 } }
     [] part = "viabr"   -> \* KNOWN FINDING (see the end of this file): the first via has no branch in all of these
                            { [C(m, o, f, 0, <<>>, r, 64) EXCEPT !.viav = v] : f \in {0, All(k)}, v \in 1..4,
-                                                                             r \in {NoRep, <<CHOOSE j \in 1..k : o[j] = 7, 0, k>>} }
+                                                                             \* a later Via line (with a branch) in EVERY later slot, also
+                                                                             \* before the remaining fingerprinted headers have been seen
+                                                                             r \in {NoRep} \cup { <<CHOOSE j \in 1..k : o[j] = 7, 0, sl>> :
+                                                                                                   sl \in (CHOOSE j \in 1..k : o[j] = 7)..k } }
     [] part = "probe"   -> { C(m, o, 0, 0, fl, NoRep, h) : fl \in { q \in ProbeFils : \A j \in 1..Len(q) : q[j][1] <= k },
                                                            h \in {-1, 0, 1, 2, 3, 4, 64} }
 
